@@ -71,13 +71,13 @@ def probeStep (cfg : Config) (inuse : List (Bytes × List User)) (fs : Fs.Tree) 
     match findLayer d name with
     | none => throw Fault.panic
     | some l =>
-      if l.state == S_error then pure d else
       let buildroot := buildPath cfg l
       let l := { l with mounts := getMountAndSubmounts d.mounts buildroot }
       let users := match inuse.find? (·.1 == name) with
         | some (_, us) => us
         | none => []
       let l := classifyUsers cfg l users
+      if l.state == S_error then pure (setLayer d l) else
       if !Fs.isDir fs buildroot then pure (setLayer d { l with state := S_incomplete }) else
       let haveWork := Fs.isDir fs (workPath cfg l)
       let haveUpper := Fs.isDir fs (upperPath cfg l)
@@ -93,11 +93,11 @@ theorem probeAll_eq (cfg : Config) (inuse : List (Bytes × List User)) (d : Defs
       let fs := (← getW).fs
       d.order.foldlM (probeStep cfg inuse fs) d) := rfl
 
-/-- what the probe has established for a layer it has visited -/
+/-- what the probe has established for a layer it has visited (after fix e3cb7aa for EVERY
+    visited layer, whatever its state: the error state is no exception any more) -/
 def Probed (cfg : Config) (m : Mounts) (us : List User) (l : Layer) : Prop :=
-  l.state = S_error ∨
-  (l.mounts = getMountAndSubmounts m (buildPath cfg l) ∧
-    (us ≠ [] → l.mountBusy = true ∨ l.nonMountBusy = true))
+  l.mounts = getMountAndSubmounts m (buildPath cfg l) ∧
+    (us ≠ [] → l.mountBusy = true ∨ l.nonMountBusy = true)
 
 /-- loop invariant, for one layer name -/
 def PInv (cfg : Config) (m : Mounts) (us : List User) (name lp : Bytes) (ov : Bool)
@@ -129,23 +129,10 @@ theorem step_inv (cfg m us name lp ov done) (d : Defs) (n : Bytes) (ln l1 : Laye
       · exact hp h
       · simp at h; exact absurd h.symm e
 
-theorem skip_inv (cfg m us name lp ov done) (d : Defs) (n : Bytes) (ln : Layer)
-    (hi : PInv cfg m us name lp ov done d) (hn : findLayer d n = some ln) (he : ln.state = S_error) :
-    PInv cfg m us name lp ov (done ++ [n]) d := by
-  obtain ⟨hm, l, hl, hlp, hov, hp⟩ := hi
-  refine ⟨hm, l, hl, hlp, hov, ?_⟩
-  intro hmem
-  rcases List.mem_append.mp hmem with h | h
-  · exact hp h
-  · simp at h
-    subst h
-    rw [hn] at hl; cases hl
-    exact Or.inl he
-
 theorem probeStep_layer (cfg : Config) (inuse : List (Bytes × List User)) (fs : Fs.Tree) (d : Defs)
     (n name : Bytes) (l0 lx : Layer) (m : Mounts) (hm : d.mounts = m)
-    (hx : lx = { classifyUsers cfg { l0 with mounts := getMountAndSubmounts d.mounts (buildPath cfg l0) }
-                  (usersOf inuse n) with state := S_incomplete } ∨
+    (hx : (∃ st, lx = { classifyUsers cfg { l0 with mounts := getMountAndSubmounts d.mounts (buildPath cfg l0) }
+                  (usersOf inuse n) with state := st }) ∨
           findLayerstate cfg fs d
             { classifyUsers cfg { l0 with mounts := getMountAndSubmounts d.mounts (buildPath cfg l0) }
                 (usersOf inuse n) with state := S_complete } = .ok lx) :
@@ -164,7 +151,7 @@ theorem probeStep_layer (cfg : Config) (inuse : List (Bytes × List User)) (fs :
   have key : lx.name = l0.name ∧ lx.layerPath = l0.layerPath ∧ lx.overlain = l0.overlain ∧
       lx.mounts = getMountAndSubmounts d.mounts (buildPath cfg l0) ∧
       lx.mountBusy = lc.mountBusy ∧ lx.nonMountBusy = lc.nonMountBusy := by
-    rcases hx with rfl | hx
+    rcases hx with ⟨st, rfl⟩ | hx
     · exact ⟨r1, r5, r7, r8, rfl, rfl⟩
     · obtain ⟨a1, a2, a3, a4, a5, a6⟩ := findLayerstate_fields cfg fs d _ lx hx
       simp only at a1 a2 a3 a4 a5 a6
@@ -173,7 +160,7 @@ theorem probeStep_layer (cfg : Config) (inuse : List (Bytes × List User)) (fs :
       unfold buildPath
       simp only [r5]
   obtain ⟨k1, k2, k3, k4, k5, k6⟩ := key
-  refine ⟨k1, fun e => ⟨k2, k3, Or.inr ⟨?_, ?_⟩⟩⟩
+  refine ⟨k1, fun e => ⟨k2, k3, ⟨?_, ?_⟩⟩⟩
   · rw [k4, hm]; unfold buildPath; rw [k2]
   · intro hne
     rw [k5, k6]
@@ -189,14 +176,15 @@ theorem probeStep_spec (cfg : Config) (inuse : List (Bytes × List User)) (fs : 
   all_goals (have h := ‹_ ∧ PInv _ _ _ _ _ _ _ _›)
   all_goals (try (exact h.1))
   all_goals (have hx := ‹findLayer d n = some _›)
-  · have he := ‹(_ == S_error) = true›
-    exact ⟨h.1, skip_inv _ _ _ _ _ _ _ d n _ h.2 hx (by simpa using he)⟩
   · refine ⟨h.1, step_inv _ _ _ _ _ _ _ d n _ _ h.2 hx ?_ ?_⟩
-    · exact (probeStep_layer cfg inuse fs d n name _ _ m h.2.1 (Or.inl rfl)).1
-    · exact (probeStep_layer cfg inuse fs d n name _ _ m h.2.1 (Or.inl rfl)).2
+    · exact (probeStep_layer cfg inuse fs d n name _ _ m h.2.1 (Or.inl ⟨_, rfl⟩)).1
+    · exact (probeStep_layer cfg inuse fs d n name _ _ m h.2.1 (Or.inl ⟨_, rfl⟩)).2
   · refine ⟨h.1, step_inv _ _ _ _ _ _ _ d n _ _ h.2 hx ?_ ?_⟩
-    · exact (probeStep_layer cfg inuse fs d n name _ _ m h.2.1 (Or.inl rfl)).1
-    · exact (probeStep_layer cfg inuse fs d n name _ _ m h.2.1 (Or.inl rfl)).2
+    · exact (probeStep_layer cfg inuse fs d n name _ _ m h.2.1 (Or.inl ⟨_, rfl⟩)).1
+    · exact (probeStep_layer cfg inuse fs d n name _ _ m h.2.1 (Or.inl ⟨_, rfl⟩)).2
+  · refine ⟨h.1, step_inv _ _ _ _ _ _ _ d n _ _ h.2 hx ?_ ?_⟩
+    · exact (probeStep_layer cfg inuse fs d n name _ _ m h.2.1 (Or.inl ⟨_, rfl⟩)).1
+    · exact (probeStep_layer cfg inuse fs d n name _ _ m h.2.1 (Or.inl ⟨_, rfl⟩)).2
   · have hfs := ‹findLayerstate _ _ _ _ = Except.ok _›
     refine ⟨h.1, step_inv _ _ _ _ _ _ _ d n _ _ h.2 hx ?_ ?_⟩
     · exact (probeStep_layer cfg inuse fs d n name _ _ m h.2.1 (Or.inr hfs)).1
